@@ -21,7 +21,8 @@ EXPLANATION = (
     "listing confinement: the prefix handed to list_objects_v2 ends at a directory boundary on every path; (R6) the range "
     "reader requests only in-range bytes (dominance of the pos < size guard; Range bounds from min(pos + want, size) - 1), "
     "and a negative seek / unknown whence raise."
-    ' Also: (R7) backends keep no mutable per-instance state; an error is permanent only by membership in PERMANENT_S3_ERROR_CODES; hand-written page loops follow NextContinuationToken; seek uses plain arithmetic.')
+    ' Also: (R7) backends keep no mutable per-instance state; an error is permanent only by membership in PERMANENT_S3_ERROR_CODES; hand-written page loops follow NextContinuationToken; seek uses plain arithmetic.'
+    " Subclasses of the S3 backend / range reader are held to their parent's rules (R2/R3/R4/R7 iterate the class family).")
 NOT_DECIDED = "operation-sequence equivalence of the two backends at run time; S3's own consistency"
 
 SB = "storage_backend"
